@@ -10,6 +10,11 @@
 
 Added after the second and third seeding rounds:
   new-solvables  (shared with C09) per-solve bookkeeping, not the persistent cache, decides what still has to be encoded
+
+Added after the fifth seeding round:
+  core           all rules of C01 and C02 (rules/core.py): a reused solver drives the core into states a fresh one never sees
+                 (eager encoding of undecided solvables through cached dependencies), so their slips show only here (C13-13, C13-14)
+  memoisation/table-written-only-by-its-fetch-function  nothing but the provider's answer enters the persistent tables (C13-15)
 """
 from common import *
 import q, mech
